@@ -3,7 +3,7 @@
 use crate::ev::*;
 use crate::gen::*;
 use crate::runner::{Ctx, Prop};
-use crate::uci::{self, Session};
+use crate::uci::Session;
 use proptest::prelude::*;
 use serde::{Deserialize, Serialize};
 use serde_json::json;
@@ -112,29 +112,14 @@ impl C13 {
                 }
             }
         } else {
-            // long budgets: the process must be alive and stoppable
-            s.send("isready");
-            if s.read_until(|l| uci::readyok(l), 5_000).is_none() {
-                let (alive, eof, tail, err) = (s.alive(), s.eof, s.transcript_tail(80), s.stderr_text());
-                s.kill();
-                return Err(Fail::new("engine-unresponsive", format!("{:?}: no readyok while thinking (alive {}, eof {}, stderr {:?}) transcript: {}", cmd, alive, eof, err, tail)));
-            }
-            s.send("stop");
-            if s.read_until(|l| l.starts_with("bestmove"), 5_000).is_none() {
-                s.kill();
-                return Err(Fail::new("engine-unresponsive", format!("{:?}: no bestmove after stop", cmd)));
-            }
+            // long budgets are not waited for; responsiveness to isready / stop / quit is C14's business
+            ev.class("long_budgets_allotment_only");
         }
         if nontrivial {
             ev.nontrivial(fp_bytes(format!("{}{}", cmd, black).as_bytes()), || json!({"command": cmd, "side_to_move": if black { "black" } else { "white" }, "time_available_ms": limit, "allotted_ms": n as u64}));
         }
-        match s.quit_within(3_000) {
-            Some(0) => Ok(()),
-            other => {
-                s.kill();
-                Err(Fail::new("engine-does-not-exit-cleanly", format!("{:?}: exit status {:?}", cmd, other)))
-            }
-        }
+        s.kill();
+        Ok(())
     }
 }
 
@@ -146,7 +131,7 @@ impl Prop for C13 {
     }
 
     fn rule(&self) -> String {
-        "Cases: `go wtime W btime B winc X binc Y` (all four always present, four field orders) with W, B log-uniform over 0..10^7 plus boundary values around 150/155 ms and the 7.5 s clock, increments 0 / small / clock-like / up to 10^5, either side to move; and `go movetime T`, T in 0..2000 with boundary values. Through the real binary: the `info time N` line must exist and N must not exceed the mover's remaining time (resp. T), hence be finite and non-negative; allotments up to 400 ms are run to completion and `bestmove` must arrive (later than N + 5 s = violation, between 2 and 5 s = inconclusive); longer ones must answer `isready` and obey `stop`; `quit` must exit 0. evaluations = go commands judged. Non-trivial: 2 % of the clock plus increment below 155 ms, or increment above the clock, or movetime below 5; distinct by command and side.".into()
+        "Cases: `go wtime W btime B winc X binc Y` (all four always present, four field orders) with W, B log-uniform over 0..10^7 plus boundary values around 150/155 ms and the 7.5 s clock, increments 0 / small / clock-like / up to 10^5, either side to move; and `go movetime T`, T in 0..2000 with boundary values. Through the real binary: the `info time N` line must exist and N must not exceed the mover's remaining time (resp. T), hence be finite and non-negative; allotments up to 400 ms are run to completion and `bestmove` must arrive (later than N + 5 s = violation, between 2 and 5 s = inconclusive); for longer ones only the allotted figure is judged (isready / stop / quit behaviour belongs to C14). evaluations = go commands judged. Non-trivial: 2 % of the clock plus increment below 155 ms, or increment above the clock, or movetime below 5; distinct by command and side.".into()
     }
 
     fn assumptions(&self) -> Vec<String> {
